@@ -76,5 +76,8 @@ def run_history(tc, w, frames, thr=0.5):
 
 def animal_pose(a, rng, drift):
     base = np.array([190.0 * a, 150.0 * a])
-    drift[a] = drift.get(a, np.zeros(2)) + np.array([rng.uniform(-0.5, 0.5), rng.uniform(-0.5, 0.5)])
+    if ("rest", a) not in drift:          # a quarter of the animals do not move at all (identical pose on every frame)
+        drift[("rest", a)] = rng.random() < 0.25
+    step = np.zeros(2) if drift[("rest", a)] else np.array([rng.uniform(-0.5, 0.5), rng.uniform(-0.5, 0.5)])
+    drift[a] = drift.get(a, np.zeros(2)) + step
     return POSE + base + drift[a]
